@@ -122,6 +122,23 @@ def fmt_macro(repo):
 
 
 
+def asserts_of(repo, rel):
+    """the argument texts of the assert() calls of one source file (blank-normalised): under -DNDEBUG -
+    the project's release build - they are not evaluated, so they must be free of side effects; the
+    expected texts are reviewed by hand in lean/QlibcModel/Shapes/*.lean"""
+    src = open(os.path.join(repo, rel), errors="replace").read()
+    src = re.sub(r"/\*.*?\*/", " ", src, flags=re.S)
+    src = re.sub(r"//[^\n]*", " ", src)
+    out = []
+    for m in re.finditer(r"\bassert\s*\(", src):
+        i, depth = m.end(), 1
+        while i < len(src) and depth:
+            depth += {"(": 1, ")": -1}.get(src[i], 0)
+            i += 1
+        out.append(" ".join(src[m.end():i - 1].split())[:160])
+    return out
+
+
 def extract(repo):
     w = widths(repo)
     st = {}
@@ -130,7 +147,13 @@ def extract(repo):
         for rel in SOURCES[fam]:
             acc += [(os.path.basename(rel), d) for d in statics_of(repo, rel)]
         st[fam] = acc
-    return {"widths": w, "statics": st, "fmt": fmt_macro(repo)}
+    asr = {}
+    for fam in FAMILIES:
+        acc = []
+        for rel in SOURCES[fam]:
+            acc += [(os.path.basename(rel), a) for a in asserts_of(repo, rel)]
+        asr[fam] = acc
+    return {"widths": w, "statics": st, "asserts": asr, "fmt": fmt_macro(repo)}
 
 
 def lstr(s):
@@ -147,6 +170,8 @@ def render(d):
         L.append("def %sWidths : List (String × Nat) := [%s]" % (fam, ", ".join("(%s, %d)" % (lstr(n), v) for n, v in ws)))
         L.append("/-- writable static storage (symbols in .data/.bss) defined by the sources of this family -/")
         L.append("def %sStatics : List (String × String) := [%s]" % (fam, ", ".join("(%s, %s)" % (lstr(f), lstr(x)) for f, x in d["statics"][fam])))
+        L.append("/-- argument texts of the assert() calls in the sources of this family (not evaluated under -DNDEBUG) -/")
+        L.append("def %sAsserts : List (String × String) := [%s]" % (fam, ", ".join("(%s, %s)" % (lstr(f), lstr(x)) for f, x in d["asserts"][fam])))
         L.append("")
     f = d["fmt"]
     L.append("/-- DYNAMIC_VSPRINTF (src/internal/qinternal.h): size of the first block, factor of the `*=` step of the")
